@@ -467,7 +467,7 @@ func newMemStore() *store.Store {
 	cfg.StoreConfig.LSSCompactionInterval = 0
 	cfg.StoreConfig.IndexByAccount = true
 	cfg.StoreConfig.StateChangeJournalEnabled = true
-	return mustE(store.NewStoreInMemory(lib.NewNullLogger(), cfg)).(*store.Store)
+	return mustE(store.NewStoreInMemory(&countingLogger{}, cfg)).(*store.Store) // a Fatal from pebble becomes a visible panic instead of a silent os.Exit(1)
 }
 
 type ventry struct {
